@@ -1028,7 +1028,8 @@ pub fn broker_case_with(case: &mut Case, threads: usize, total_depth: u32, fanou
     case.sample(|| json!({"threads": threads, "depth": total_depth, "fanout": fanout, "block": block}));
     // job = (id, depth); processing a job of depth < total_depth creates `fanout` children
     let mut broker: verif::Broker<(u64, u32)> = verif::Broker::new(threads, None);
-    let market = broker.id();
+    let market = my_market().unwrap_or(0); // the unique id under which this market's events are filed
+    let _ = broker.id();
     let mut init = std::collections::VecDeque::new();
     init.push_back((1u64, 0u32));
     broker.push(init);
